@@ -109,6 +109,7 @@ func (x *sexp) String() string {
 // ---- probing ----
 
 type prober struct {
+	relaxedUsed bool // some values come from a query without the quantified hypotheses
 	p       *Prog
 	asserts []*Term
 	pins    []*Term
@@ -132,14 +133,29 @@ func (pb *prober) ask(terms []*Term, caps []*Term) bool {
 	if len(need) == 0 {
 		return true
 	}
+	relaxed := false
 	try := func(withCaps bool) bool {
 		as := append([]*Term{}, pb.asserts...)
+		if relaxed && len(as) > 0 {
+			// candidate models only: universally quantified hypotheses are left out (the replay on the real
+			// code decides whether the candidate is a counterexample); the negated goal stays
+			var keep []*Term
+			for i, a := range as {
+				if i == len(as)-1 || !mentionsQuantifier(a) {
+					keep = append(keep, a)
+				}
+			}
+			as = keep
+		}
 		as = append(as, pb.pins...)
 		if withCaps {
 			as = append(as, caps...)
 		}
 		var sb strings.Builder
 		base := pb.p.buildScript(as, nil)
+		if relaxed {
+			base = pb.p.buildScriptOpts(as, nil, false, true)
+		}
 		base = strings.TrimSuffix(strings.TrimSpace(base), "(check-sat)")
 		sb.WriteString(base)
 		var names []string
@@ -212,7 +228,25 @@ func (pb *prober) ask(terms []*Term, caps []*Term) bool {
 	if len(caps) > 0 && try(true) {
 		return true
 	}
+	if try(false) {
+		return true
+	}
+	relaxed = true
+	pb.relaxedUsed = true
+	if len(caps) > 0 && try(true) {
+		return true
+	}
 	return try(false)
+}
+
+func mentionsQuantifier(t *Term) bool {
+	found := false
+	collectSyms([]*Term{t}, func(x *Term) {
+		if x.Bind != nil || x.Head == "forall" || x.Head == "exists" {
+			found = true
+		}
+	})
+	return found
 }
 
 // preferFirst pins as many of the given soft constraints as remain satisfiable together.
